@@ -67,6 +67,9 @@ func (p c02) Gen(c *run.Ctx, idx int) (json.RawMessage, error) {
 	if idx%4 == 1 {
 		prof.PFragment, prof.PFragReuse = 0.25, 0.5
 	}
+	if idx%8 == 6 {
+		prof.PDupKey = 0.3
+	}
 	if idx%3 == 0 {
 		prof.PVar, prof.PVarDefault, prof.PArgsAlways = 0.7, 0.3, true
 	}
